@@ -7,8 +7,7 @@
    All theorems quantify over ALL values (unbounded nesting).  Side conditions:
      wf_keys     the keys of every map inside are pairwise different (maps are association lists here)
      clean_val   no NaN, no closure, no caught-error text inside
-     small_ints  every int inside is exactly a float, |z| < 2^53 (the property's bound)
-     narrow_maps every map inside has at most one entry.
+     small_ints  every int inside is exactly a float, |z| < 2^53 (the property's bound).
    The operator matrices op_matrices are regenerated from value.New() on every run. *)
 From P2 Require Import Base.Prelude Sem.Num Sem.Syntax Sem.Ops Sem.Lib Sem.OpsSpec Sem.OpsLaws Generated.ValueOps.
 Local Open Scope Z_scope.
@@ -16,18 +15,18 @@ Local Open Scope Z_scope.
 (* ---------------------------------------------------------------- = : what it computes *)
 
 (* lists element-wise, maps key-wise: the unfolding equations read like List.Equals / Map.Equals
-   (length/size check, then stop at the first component that is not equal: false or error) *)
+   (lists: length check, then stop at the first position that is not equal - false or error;
+    maps: size check, then ALL entries of the receiver, an error winning over a difference) *)
 Theorem C14_eq_lists_elementwise : forall la lb,
   veq (VList la) (VList lb) = if len_differs la lb then Ok false else list_go veq la lb.
 Proof. exact veq_list_eq. Qed.
 
 Theorem C14_eq_maps_keywise : forall ma mb,
-  veq (VMap ma) (VMap mb) = if len_differs ma mb then Ok false else map_go veq mb ma.
+  veq (VMap ma) (VMap mb) = if len_differs ma mb then Ok false else map_all veq mb ma.
 Proof. exact veq_map_eq. Qed.
 
 (* never a wrong boolean: whenever = answers true/false it is the evident equality *)
-Theorem C14_eq_sound : forall a b r, wf_keys a = true -> wf_keys b = true ->
-  veq a b = Ok r -> sem_eq a b = r.
+Theorem C14_eq_sound : forall a b r, veq a b = Ok r -> sem_eq a b = r.
 Proof. exact veq_sound. Qed.
 
 (* and every evident equality is found *)
@@ -49,27 +48,13 @@ Proof. exact xeq_int_fin. Qed.
 Theorem C14_eq_refl : forall a, wf_keys a = true -> clean_val a = true -> veq a a = Ok true.
 Proof. exact veq_refl. Qed.
 
-(* full statement:  forall a b, veq a b = veq b a.
-   It fails: Map.Equals visits the entries of the RECEIVER in its order and stops at the first entry
-   that differs (false) or cannot be compared (error); with two such entries the answer depends on
-   which map is the receiver.  {a:1,b:"x"} = {b:1,a:2} is false, {b:1,a:2} = {a:1,b:"x"} is an error. *)
-Theorem C14_eq_sym_refuted : exists a b,
-  wf_keys a = true /\ wf_keys b = true /\ clean_val a = true /\ clean_val b = true /\
-  veq a b = Ok false /\ veq b a = Err None.
-Proof. exact veq_sym_refuted. Qed.
-
-(* what holds for all values: "equal" is symmetric, and two boolean answers never differ *)
-Theorem C14_eq_sym_true_partial : forall a b, wf_keys a = true -> wf_keys b = true ->
-  veq a b = Ok true -> veq b a = Ok true.
-Proof. exact veq_sym_true. Qed.
-
-Theorem C14_eq_sym_bool_partial : forall a b x y, wf_keys a = true -> wf_keys b = true ->
-  veq a b = Ok x -> veq b a = Ok y -> x = y.
-Proof. exact veq_sym_bool. Qed.
-
-(* and the full symmetry (errors included) whenever no map inside a has two entries *)
-Theorem C14_eq_sym_partial : forall a b, narrow_maps a = true -> veq a b = veq b a.
-Proof. exact veq_sym_narrow. Qed.
+(* a=b and b=a have the same outcome - true, false or error - for all values (maps as the
+   implementation has them: pairwise different keys).  Before the repair of Map.Equals
+   (fix: '=' on maps does not depend on the order of the entries ...) this failed:
+   {a:1,b:"x"} = {b:1,a:2} was false and {b:1,a:2} = {a:1,b:"x"} an error; the pair stays in the
+   corpus of the correspondence run and is an error both ways now (veq_sym_witness). *)
+Theorem C14_eq_sym : forall a b, wf_keys a = true -> wf_keys b = true -> veq a b = veq b a.
+Proof. exact veq_sym. Qed.
 
 (* ---------------------------------------------------------------- < : irreflexive, asymmetric, transitive *)
 
@@ -233,7 +218,7 @@ Example C14_nonvacuous_order :
   vless (VStr []) (VStr [97%N]) = Ok true /\ vless (VBool true) (VBool false) = Err None /\
   calc op_in (VInt 1) (VList [VStr [97%N]; VInt 1]) = Err None /\
   calc op_in (VInt 1) (VList [VInt 1; VStr [97%N]]) = Ok (VBool true) /\
-  narrow_maps nv_a = false /\ narrow_maps (VList [VInt 1; VMap [([97%N], VInt 1)]]) = true.
+  veq sym_witness_a sym_witness_b = Err None /\ veq sym_witness_b sym_witness_a = Err None.
 Proof. vm_compute. repeat split; reflexivity. Qed.
 
 Print Assumptions C14_eq_lists_elementwise.
@@ -243,10 +228,7 @@ Print Assumptions C14_eq_complete.
 Print Assumptions C14_eq_numeric.
 Print Assumptions C14_eq_numeric_meaning.
 Print Assumptions C14_eq_refl.
-Print Assumptions C14_eq_sym_refuted.
-Print Assumptions C14_eq_sym_true_partial.
-Print Assumptions C14_eq_sym_bool_partial.
-Print Assumptions C14_eq_sym_partial.
+Print Assumptions C14_eq_sym.
 Print Assumptions C14_lt_exact.
 Print Assumptions C14_lt_irrefl.
 Print Assumptions C14_lt_asym.
